@@ -97,6 +97,22 @@
                 found.push(format!("WITNESS {label} :: WriteOnEviction: insert(5); evict_all [{written} bytes written]; {how} [{:?}, {:?}]; evict_all => {after} bytes written: the disk hit was written again", age.0, age.1));
             }
         }
+        // (5) flush on close with several flushers: a resident set far below the submit-queue threshold and the flush buffer
+        //     is written completely (close enqueues it in one go; nothing may be shed as "overload")
+        {
+            let dir = tempfile::tempdir().unwrap();
+            let hybrid = tests::open_flushers_for_witness(dir.path(), 4).await;
+            for k in 0..80u64 { hybrid.insert(k, vec![k as u8; 64 * KB]); }
+            hybrid.close().await.unwrap();
+            drop(hybrid);
+            let hybrid = tests::open_flushers_for_witness(dir.path(), 4).await;
+            let mut lost = vec![];
+            for k in 0..80u64 { if hybrid.get(&k).await.unwrap().is_none() { lost.push(k); } }
+            if !lost.is_empty() {
+                found.push(format!("WITNESS admitted_write_is_submitted_once_with_a_fresh_sequence :: write-on-eviction, flush on close, 4 flushers, default submit-queue threshold and buffer pool: insert 80 entries of 64 KiB (5 MiB); close(); reopen => keys {:?} are not on disk", lost));
+            }
+            hybrid.close().await.unwrap();
+        }
         for f in found.iter().take(3) { println!("{f}"); }
         println!("WITNESS-SEARCH-DONE found={}", found.len());
     }
